@@ -1668,3 +1668,69 @@ Proof.
   apply ledger_conserved_from; try assumption; try reflexivity.
   intros v Hrow. discriminate.
 Qed.
+
+(* ------------------------------------------------------------------------------------------ *)
+(* the side conditions are decidable: boolean forms (used by the non-vacuity examples) *)
+
+Definition is_none {A} (o : option A) : bool := match o with None => true | Some _ => false end.
+
+Definition connect_sideb (t : tower) (txs : list N) : bool :=
+  forallb (fun k => implb (completing (gk_height t + 1) txs k)
+                          (negb (mem_uuid (trk_uuid k) (reorged t)) && negb (memN (t_loc k) txs))) (db_trks t)
+  && forallb (fun a => implb (memN (a_loc a) txs && is_none (find_trk (db_trks t) (app_uuid a)))
+                             (match decrypt (a_blob a) (a_loc a) with
+                              | Some p => is_none (ti_get (r_index t) p) | None => true end)) (db_apps t)
+  && forallb (fun e => match snd e with ConfirmedIn _ => false | _ => true end) (car_memo t).
+
+Lemma aget_In {V} (m : amap V) k v : aget m k = Some v -> In (k, v) m.
+Proof.
+  induction m as [|[k' v'] m IH]; cbn [aget]; [discriminate|].
+  destruct (N.eqb k k') eqn:E; [|intros H; right; apply IH; exact H].
+  apply N.eqb_eq in E. subst k'. intros H; inversion H. left. reflexivity.
+Qed.
+
+Lemma connect_sideb_sound t txs : connect_sideb t txs = true -> connect_side t txs.
+Proof.
+  unfold connect_sideb, connect_side. rewrite !andb_true_iff, !forallb_forall. intros [[H1 H2] H3]. split; [|split].
+  - intros k Hk Hc. specialize (H1 k Hk). rewrite Hc in H1. cbn [implb] in H1. apply andb_true_iff in H1.
+    destruct H1 as [Ha Hb]. apply negb_true_iff in Ha, Hb. split; assumption.
+  - intros a p Ha Hl Hf Hd. specialize (H2 a Ha). rewrite Hl, Hf, Hd in H2. cbn [andb is_none implb] in H2.
+    destruct (ti_get (r_index t) p); [discriminate|reflexivity].
+  - intros tx s Hg h Hs. apply aget_In in Hg. specialize (H3 _ Hg). cbn [snd] in H3. subst s. discriminate.
+Qed.
+
+Definition step_sideb (t : tower) (o : op) : bool :=
+  match o with
+  | OAdd signer _ _ _ _ => match signer with Some u => N.ltb (bal t u) U32MOD | None => true end
+  | OConnect _ txs => connect_sideb t txs
+  | ODisconnect => negb (is_none (last_hash t))
+  | _ => true
+  end.
+
+Lemma step_sideb_sound t o : step_sideb t o = true -> step_side t o.
+Proof.
+  destruct o as [u|signer loc b delay sig|signer loc|signer|hash txs|]; cbn [step_sideb step_side]; try (intros; exact I).
+  - destruct signer; [apply N.ltb_lt|intros; exact I].
+  - apply connect_sideb_sound.
+  - destruct (last_hash t); [intros _; discriminate|discriminate].
+Qed.
+
+Fixpoint run_sideb (le : bool) (t : tower) (h : list (op * script)) : bool :=
+  match h with
+  | [] => true
+  | (o, sc) :: r => step_sideb t o && run_sideb le (fst (step le t o sc)) r
+  end.
+
+Lemma run_sideb_sound le : forall h t, run_sideb le t h = true -> run_side le t h.
+Proof.
+  induction h as [|[o sc] h IH]; intros t; cbn [run_sideb run_side]; [intros; exact I|].
+  rewrite andb_true_iff. intros [H1 H2]. split; [apply step_sideb_sound; exact H1|apply IH; exact H2].
+Qed.
+
+Definition no_abortb (xs : list out) : bool := forallb (fun x => negb (is_abort x)) xs.
+
+Lemma no_abortb_sound xs : no_abortb xs = true -> Forall not_abort xs.
+Proof.
+  unfold no_abortb. rewrite forallb_forall. intros H. apply Forall_forall. intros x Hx. specialize (H x Hx).
+  destruct x; try exact I. discriminate.
+Qed.
